@@ -295,11 +295,20 @@ class LabelledPointUndirectedGraph(PointUndirectedGraph):
         -------
         labelled_pointgraph : :map:`LabelledPointUndirectedGraph`
             A new labelled pointgraph with the new label specified by indices.
+
+        Raises
+        ------
+        ValueError
+            If ``label`` already exists and replacing its mask would leave
+            some points unlabelled.
         """
         new = self.copy()
         mask = np.zeros(self.n_points, dtype=bool)
         mask[indices] = True
         new._labels_to_masks[label] = mask
+        # Re-using an existing label replaces its mask, which may leave
+        # points without any label
+        new._verify_all_labels_masked()
         return new
 
     def get_label(self, label):
